@@ -31,7 +31,21 @@ expressions
   * pure functions, calls: `cast(T, e)` (typing.cast: → `e`, listed in the header), functions / methods WITH arguments that the
     `PureSpec` maps to a hand-written Lean term (`calls`; may be declared raising: → `(← Py.call …)`), `EnumName.X` of a plain `Enum`
     whose members the spec maps one-to-one to the constructors of a Lean inductive type (`==`/`!=` on those: identity),
-    statement `odxraise(msg[, OdxError|EncodeError|DecodeError])` (STRICT MODE: → `throw`; not a terminator for the flow analysis)
+    statement `odxraise(msg[, OdxError|EncodeError|DecodeError])` (STRICT MODE: → `throw`; not a terminator for the flow analysis);
+    `if not isinstance(x, T): odxraise(…)` (a typing assertion written with odxraise: dropped and listed in the header);
+    an `Optional` value passed where the spec declares a non-optional parameter becomes `Py.unwrap` (the spec'd Lean term is not
+    defined on None; the equality theorems show that this never happens)
+  * pure functions, dicts: a local assigned ONCE a dict literal with pairwise different constant keys (enum members / int literals)
+    and int values (→ association list), read by `d[k]` only (→ `Py.dictGet`, `KeyError`)
+  * pure functions, sorting by key: `sorted(xs, key=lambda v: e, reverse=b)` as an expression, `e` a provably non-negative int that may
+    raise (→ `(← Py.sortedByKeyM (fun v => do pure e) b xs)`: keys of all elements first, then a stable sort, stable in BOTH directions)
+  * pure functions, attributes: chains `a.b.c` whose every link the spec declares; a link may be another translated property
+    (`(← fE ·)`); `getattr(obj, "name", <default>)` where the spec names the term that stands for "the attribute or that default"
+  * pure functions, strings (`str` = `List Char`): `s[i]` for a provably non-negative `i` (→ `Py.getItem`, a one-character string,
+    usable only through methods the spec declares for it, e.g. `isdigit`), `len(s)`, `==`, f-strings whose interpolated values are
+    all `str` without conversion / format spec (→ `++`; literal parts printable ASCII)
+  * function headers: decorators `property`, `override`, `staticmethod` only; parameter defaults must be constants (they concern the
+    callers; the rendering takes every parameter explicitly); annotations are never consulted
 typing (static, flow-insensitive per variable; the translator infers it)
   * `Nat` (provably non-negative int), `Int`, `Bool`, `Bytes`, `Option T`. A variable's type is the join of everything assigned to it.
   * operations that Python would reject at run time on `None` become `Py.unwrap` (→ `Py.Err.typeError`)
@@ -1626,8 +1640,9 @@ if __name__ == "__main__":
     import sys
     repo = Path(sys.argv[1]) if len(sys.argv) > 1 else Path("/repo")
     if len(sys.argv) > 2:
-        print(regenerate_isotp(repo, Path(sys.argv[2])))
-        print(regenerate_staticlen(repo, Path(sys.argv[2])))
+        for regen in (regenerate_isotp, regenerate_staticlen, regenerate_muxkey, regenerate_limit, regenerate_inherit_prio,
+                      regenerate_itemkey):
+            print(regen(repo, Path(sys.argv[2])))
     else:
-        sys.stdout.write(render_isotp(repo))
-        sys.stdout.write(render_staticlen(repo))
+        for render in (render_isotp, render_staticlen, render_muxkey, render_limit, render_inherit_prio, render_itemkey):
+            sys.stdout.write(render(repo))
